@@ -152,6 +152,40 @@ def padding_too_long(rng, per, li, k):
     return ("rdh", li, k, 0)
 
 
+def cdw_rule_broken(rng, per, li, k):
+    """calibration streams: a CDW that is not the link's first one gets other user fields than the CDW before it AND a word index
+    other than 0 (whichever of the two it lacked)"""
+    seen = 0
+    for q in range(k):
+        seen += sum(1 for _pos, w in words_of(*per[li][q]) if w[9] == 0xF8)
+    r, p = per[li][k]
+    cand = [(pos, w) for pos, w in words_of(r, p) if w[9] == 0xF8]
+    if not cand or not seen:
+        return None
+    pos, w = cand[0]
+    prevs = [w2 for q in range(k) for _p2, w2 in words_of(*per[li][q]) if w2[9] == 0xF8]
+    w = bytearray(w)
+    if bytes(w[0:6]) == bytes(prevs[-1][0:6]):
+        w[rng.randrange(6)] ^= 1 << rng.randrange(8)      # user fields = bits 47:0
+    # word index = bits 71:48: any value but 0, the boundaries of the three bytes first
+    idx = rng.choice([1, 1, 2, 0xFF, 0x100, 0xFFFF, 0x10000, 0xFFFFFF, rng.randrange(1, 1 << 24)])
+    w[6], w[7], w[8] = idx & 0xFF, (idx >> 8) & 0xFF, idx >> 16
+    per[li][k] = (r, set_word(p, pos, bytes(w)))
+    return ("word", li, k, 64 + pos)
+
+
+def cdw_not_first(rng, per, li, k):
+    """calibration streams: the CDW changes place with the data word behind it -- a CDW is only legal as the first data word of a packet"""
+    r, p = per[li][k]
+    ws = words_of(r, p)
+    for i, (pos, w) in enumerate(ws[:-1]):
+        nxt_pos, nxt = ws[i + 1]
+        if w[9] == 0xF8 and 0x20 <= nxt[9] <= 0x5E:
+            per[li][k] = (r, set_word(set_word(p, pos, nxt), nxt_pos, w))
+            return ("word", li, k, 64 + nxt_pos)
+    return None
+
+
 # name -> (mutator, documented families, modes in which the rule is documented as active, "running only" for the sanity exclusion)
 CATALOGUE = {
     "rdh0 header_size": (rdh_mut(bit(None, 1, 0, val=0x41)), [10], ALLM),
@@ -175,13 +209,15 @@ CATALOGUE = {
     "running: orbit changes inside HBF": (rdh_mut(data_page_not0(lambda rng, b, c: b.__setitem__(20, b[20] ^ 1))), [11], RUN),
     "running: trigger changes inside HBF": (rdh_mut(data_page_not0(lambda rng, b, c: b.__setitem__(33, b[33] ^ 0x08))), [11], RUN),
     "ihw reserved": (word_mut(is_id(0xE0), setb(5, orv=1)), [30], ITS),
-    "ihw id": (word_mut(lambda w, i, ws, r: w[9] == 0xE0 and i == 0, setb(9, andv=0, orv=0xE1)), [30, 992], ITS),   # E30 where only an IHW can stand, E992 in the choice state after a complete packet
+    "ihw id": (word_mut(lambda w, i, ws, r: w[9] == 0xE0 and i == 0, setb(9, andv=0, orv=0xE1)), [30, 992, 990], ITS),   # E30 where only an IHW can stand, E992 in the choice state after a complete packet, E990 in the choice state after a no-data TDH that ended the page before
     "tdh reserved": (word_mut(is_id(0xE8), setb(8, orv=1)), [40], ITS),
     "tdh no trigger": (word_mut(lambda w, i, ws, r: w[9] == 0xE8 and not (w[1] >> 6) & 1 and i > 1, lambda rng, w, c: (w.__setitem__(0, 0), w.__setitem__(1, w[1] & 0xE0), w)[2]), [40], ITS),
     "tdt reserved": (word_mut(is_id(0xF0), setb(8, orv=4)), [50], ITS),
     "ddw0 reserved": (word_mut(is_id(0xE4), setb(7, orv=1)), [60], ITS),
     "ddw0 index": (word_mut(is_id(0xE4), setb(8, orv=0x10)), [60], ITS),
     "data word id invalid": (word_mut(lambda w, i, ws, r: 0x20 <= w[9] <= 0x5E, setb(9, andv=0, orv=0x3A)), [70, 991], ITS),
+    "cdw user fields change with index != 0": (cdw_rule_broken, [81], RUN_ITS),
+    "cdw behind a data word": (cdw_not_first, [70, 991], ITS),
     "identifier unknown after TDT": (word_mut(tdh_after_done, setb(9, andv=0, orv=0x11)), [992, 990], ITS),
     "padding > 15 bytes": (padding_too_long, [0], ITS),
     "ddw0 on page 0": (rdh_mut(stop_page_only(lambda rng, b, c: struct.pack_into("<H", b, 36, 0))), [111, 11], RUN_ITS),
@@ -233,7 +269,9 @@ def run(tier, seed):
             tries += 1
             stave = rng.random() < 0.35
             fmt = [0, 2][(done + names.index(name)) % 2]     # every entry is applied to both data formats, in turn
-            _m, per = streams.conforming(rng, nlinks=rng.choice([1, 2, 3]), nhbf=rng.choice([2, 3]), stave_level=stave, fmt=fmt)
+            # calibration runs (a CDW leads the data of every page) for the CDW rules and for a fifth of the other streams
+            calib = name.startswith("cdw") or rng.random() < 0.2
+            _m, per = streams.conforming(rng, nlinks=rng.choice([1, 2, 3]), nhbf=rng.choice([2, 3]), stave_level=stave, fmt=fmt, calib=calib)
             per = [list(pk) for pk in per]
             # RDH rules do not depend on the payload: a third of their streams carry arbitrary payload sizes incl. none at all (modes without a target only)
             rdh_only = fam[0] in (10, 11) and name != "rdh0 system id (ITS)" and rng.random() < 0.35
@@ -314,7 +352,7 @@ def run(tier, seed):
     shutil.rmtree(tmp, ignore_errors=True)
     chk.add_stream("fault-catalogue", len(jobs), distinct, samples, distribution={"catalogue_entries": len(names), "faulted_streams_per_entry": reps, "runs": len(jobs)})
     chk.cov["rule"] = ("%d catalogue entries (RDH0..RDH3 sanity rules incl. ITS system id, the four running rules, IHW / TDH / TDT / DDW0 identifier and reserved-bit rules, data word ids, "
-                       "unknown identifiers in choice states, the padding limit, DDW0 page rules, the TDH continuation / bunch-crossing / orbit rules) x positions first / middle / "
+                       "unknown identifiers in choice states, the padding limit, the two CDW rules on calibration streams, DDW0 page rules, the TDH continuation / bunch-crossing / orbit rules) x positions first / middle / "
                        "last / any non-first packet on a random link of 1..3 interleaved links, formats 0 and 2, stave-level and plain streams x the five modes: where the rule is "
                        "documented as active an error of its family must be located at the offending RDH / word and the -E status returned; running-only faults must not produce "
                        "[E11] under check sanity. distinct = (entry, mode, active, position class)" % len(CATALOGUE))
